@@ -43,7 +43,7 @@ STUB = ["choice of the running worker thread (baton scheduler, line events in mo
 ASSUMPTIONS = ["the eval'd equation lambdas and numpy/pandas run atomically between two pre-emption points",
                "double evaluation of an equation is allowed; a second VALUE for one (element, time) is not"]
 FAULT_KINDS = ["preemption"]
-PROBES = ["decimal_dt_race", "edit_after_dependant_read", "initial_value_edit", "preempted_between_check_and_store", "fresh_called_twice_for_one_time",
+PROBES = ["stochastic_scenario_run_repeatedly", "read_via_memoize", "read_via_call", "read_via_plot", "decimal_dt_race", "edit_after_dependant_read", "initial_value_edit", "preempted_between_check_and_store", "fresh_called_twice_for_one_time",
           "run_repeated", "scenario_reset_cache"]
 EXHAUSTIVE = {"quick": False, "thorough": False}
 
@@ -121,6 +121,9 @@ def plan(tier, verif_seed):
     for j in range(min(n_edit, 1500)):
         yield {"i": i, "kind": "edit", "seed": derive_seed(verif_seed, PROPERTY, "edit", i), "keep_sample": j < 1}
         i += 1
+    for j in range(300 if tier == "quick" else 3000):
+        yield {"i": i, "kind": "repeat", "seed": derive_seed(verif_seed, PROPERTY, "repeat", i)}
+        i += 1
     if tier != "thorough":
         return
     # complete single-pre-emption sweep of the four-equation race
@@ -155,6 +158,12 @@ def generate(spec):
         dt = rng.choice([1.0, 1.0, 0.5, 0.1, 0.2])
         return {"property": PROPERTY, "kind": "race", "equations": eqs, "steps": rng.choice([1, 2, 3]) if dt >= 0.5 else rng.choice([3, 4, 6]),
                 "dt": dt, "sched": sched}
+    if spec["kind"] == "repeat":
+        # a stochastic model behind bptk scenarios (with and without scenario settings): several runs, no edit in between
+        runs = [rng.sample(["s", "r", "a"], rng.randint(1, 3)) for _ in range(rng.randint(2, 4))]
+        return {"property": PROPERTY, "kind": "repeat", "scenario": rng.choice(["plain", "boost", "boost"]),
+                "dt": rng.choice([1.0, 0.5]), "steps": rng.choice([2, 3, 4]), "runs": runs,
+                "formats": [rng.choice(["df", "dict", "json"]) for _ in runs]}
     # edit history
     start = rng.choice([0.0, 1.0])
     dt = rng.choice([1.0, 0.5, 0.25])
@@ -178,6 +187,9 @@ def generate(spec):
         else:
             ops.append({"op": "scenario_reset_cache"})
     return {"property": PROPERTY, "kind": "edit", "start": start, "stop": stop, "dt": dt, "ops": ops,
+            # which reading API the history and the oracle use (they differ in which bookkeeping they touch), and whether
+            # every element is observed after every operation or only at the end (observation is itself an operation)
+            "via": rng.choice(["evaluate_equation", "memoize", "call", "plot"]), "observe": rng.choice(["each", "each", "end"]),
             "sched": {"kind": "random", "seed": rng.randrange(2**32), "p": 0.05}}
 
 
@@ -186,7 +198,93 @@ def generate(spec):
 def execute(case):
     if case["kind"] == "race":
         return _execute_race(case)
+    if case["kind"] == "repeat":
+        return _execute_repeat(case)
     return _execute_edit(case)
+
+
+def _execute_repeat(case):
+    """'repeating a run returns identical results', and 'whichever set of equations was requested': a stochastic
+    model behind bptk scenarios is run several times, with different equation lists, without any edit in between"""
+    import json
+    import BPTK_Py
+    from BPTK_Py import Model
+    from worlds.server_world import configure_bptk_globals
+    configure_bptk_globals()
+    log = EventLog()
+    res = RunResult()
+    log.add("case", case)
+    dt, steps = case["dt"], case["steps"]
+    m = Model(starttime=0.0, stoptime=dt * steps, dt=dt, name="rep")
+    counter = [0]
+
+    def fresh(model, t):
+        counter[0] += 1
+        return float(counter[0])
+    fn = m.function("fresh", fresh)
+    r = m.converter("r")
+    a = m.converter("a")
+    k = m.constant("k")
+    s = m.stock("s")
+    k.equation = 1.0
+    r.equation = fn()
+    a.equation = r * k
+    s.initial_value = 0.0
+    s.equation = a * 1.0
+    kval = {"plain": 1.0, "boost": 2.0}[case["scenario"]]
+    with patches.installed(threads="serial"):
+        b = BPTK_Py.bptk()
+        b.register_scenario_manager({"smR": {"model": m}})
+        b.register_scenarios(scenario_manager="smR", scenarios={"plain": {}, "boost": {"constants": {"k": 2.0}}})
+        seen = {}       # element -> {t: value} as first reported
+        for n, (eqs, fmt) in enumerate(zip(case["runs"], case["formats"])):
+            out = b.run_scenarios(scenarios=[case["scenario"]], scenario_managers=["smR"], equations=list(eqs), series_names={}, return_format=fmt)
+            if fmt == "json":
+                out = json.loads(out)
+            for e in eqs:
+                try:
+                    if fmt == "df":
+                        col = {float(t): v for t, v in out[e].to_dict().items()}
+                    else:
+                        node = out["smR"][case["scenario"]]["equations"][e]
+                        col = {float(t): v for t, v in (node if isinstance(node, dict) else node.to_dict()).items()}
+                except Exception as ex:
+                    res.violate("C08.a-run-not-repeatable", {"run": n, "equation": e, "exception": type(ex).__name__})
+                    col = {}
+                if e in seen and col and seen[e] != col:
+                    t_bad = sorted(t for t in col if seen[e].get(t) != col[t])[:3]
+                    res.violate("C08.a-run-not-repeatable", {"run": n, "equation": e, "scenario": case["scenario"], "times": t_bad,
+                                                             "first": [seen[e].get(t) for t in t_bad], "now": [col[t] for t in t_bad]})
+                seen.setdefault(e, col)
+            if res.violations:
+                break
+        # the value reported for r / a is the value the stock consumed, whichever run reported it
+        if not res.violations:
+            grid = [round(i * dt, 6) for i in range(steps + 1)]
+            if "a" in seen and "r" in seen:
+                for t in grid:
+                    if abs(seen["a"][t] - kval * seen["r"][t]) > 1e-9:
+                        res.violate("C08.b-two-values-for-one-element-time", {"t": t, "a": seen["a"][t], "k_times_r": kval * seen["r"][t],
+                                                                              "scenario": case["scenario"], "runs": case["runs"]})
+                        break
+            src = "a" if "a" in seen else ("r" if "r" in seen else None)
+            if "s" in seen and src and not res.violations:
+                f = 1.0 if src == "a" else kval
+                for i in range(steps):
+                    inc = seen["s"][grid[i + 1]] - seen["s"][grid[i]]
+                    if abs(inc - dt * f * seen[src][grid[i]]) > 1e-9:
+                        res.violate("C08.b-two-values-for-one-element-time", {"t": grid[i], "stock_increment": inc, "expected": dt * f * seen[src][grid[i]],
+                                                                              "scenario": case["scenario"], "runs": case["runs"]})
+                        break
+        try:
+            b.destroy()
+        except Exception:
+            pass
+    res.probe("stochastic_scenario_run_repeatedly")
+    res.sim_units = len(case["runs"])
+    res.nontrivial = len(case["runs"]) >= 2
+    res.digest = log.digest()
+    return res
 
 
 def _execute_race(case):
@@ -292,12 +390,22 @@ def _execute_edit(case):
             res.points += s.points
         return {c: {repr(t): v for t, v in fr[c].to_dict().items()} for c in fr.columns}
 
+    via = case.get("via", "evaluate_equation")
+    res.probe("read_via_" + via)
+
+    def read(m, n, t):
+        if via == "memoize" or via == "plot":
+            return m.memoize(n, t)
+        if via == "call":
+            return elem(m, n)(t)
+        return m.evaluate_equation(n, t)
+
     def compare(n_op, op):
         fresh = build(defs, start, stop, dt)
         for n in ELEMS:
             for t in grid:
                 try:
-                    lv = live.evaluate_equation(n, t)
+                    lv = read(live, n, t)
                 except Exception as e:
                     lv = "exc:" + type(e).__name__
                 try:
@@ -336,7 +444,10 @@ def _execute_edit(case):
             last_edit[0] = op
         elif kind == "evaluate":
             t = grid[op["t_index"] % len(grid)]
-            live.evaluate_equation(op["elem"], t)
+            if via == "plot":
+                elem(live, op["elem"]).plot(return_df=True)
+            else:
+                read(live, op["elem"], t)
             read_since_edit.add(op["elem"])
         elif kind == "run":
             f1 = run(live, op["equations"])
@@ -358,9 +469,10 @@ def _execute_edit(case):
             scen.reset_cache()
         if res.violations:
             break
-        if not compare(n_op, op):
-            break
-        read_since_edit |= set(ELEMS)
+        if case.get("observe", "each") == "each" or n_op == len(case["ops"]) - 1:
+            if not compare(n_op, op):
+                break
+            read_since_edit |= set(ELEMS)
     res.sim_units = res.points
     res.nontrivial = res.probes.get("edit_after_dependant_read", 0) > 0
     res.digest = log.digest()
@@ -368,6 +480,14 @@ def _execute_edit(case):
 
 
 def shrink(case):
+    if case["kind"] == "repeat":
+        if len(case["runs"]) > 2:
+            for j in range(len(case["runs"])):
+                c = copy.deepcopy(case)
+                c["runs"].pop(j)
+                c["formats"].pop(j)
+                yield c
+        return
     if case["kind"] == "race":
         yield from shrink_sched(case)
         if case["steps"] > 1:
